@@ -730,10 +730,11 @@ pub fn run_execution(sched: Sched, events: Events, step_budget: u32, bodies: Vec
     for (i, slot) in cos.iter_mut().enumerate() {
         if let Some(mut co) = slot.take() {
             ex().current = i;
-            if co.started() && !co.done() {
+            if !co.done() {
+                // started: unwinds the suspended stack; not started: drops the closure
                 let _ = std::panic::catch_unwind(std::panic::AssertUnwindSafe(|| co.force_unwind()));
             }
-            if co.done() || !co.started() {
+            if co.done() {
                 give_stack(co.into_stack());
             } else {
                 std::mem::forget(co);
